@@ -76,6 +76,9 @@ func regStep(state, in, out any) (bool, any) {
 			} else {
 				next |= s | stTomb
 			}
+		case "dedup":
+			// removing redundant copies must never remove the object
+			next |= s
 		case "mark", "drop":
 			after := stAbsent
 			if s == stTomb {
@@ -133,11 +136,38 @@ func runC20(r *simkit.R) {
 	faultPct := []int{0, 0, 6, 15}[r.Intn(4)]
 	modes := r.Bool(60)
 	nops := 3 + r.Intn(12)
+	// in some runs a few objects start with copies on several shards (left by earlier placement
+	// changes, as the policer finds them): stored directly through the shards
+	var lin []simkit.LinOp
+	if len(w.shards) >= 2 && r.Bool(35) {
+		w.exclusive("populate", func() {
+			for k, m := 0, 1+r.Intn(2); k < m; k++ {
+				id := r.Intn(nreg)
+				if w.u.Specs[id].ECRule >= 0 {
+					continue
+				}
+				call := w.k.Seq()
+				n := 0
+				for _, i := range r.Perm(len(w.shards))[:2+r.Intn(len(w.shards)-1)] {
+					if err := w.shards[i].sh.Put(w.u.Build(w.u.Specs[id]), nil); err == nil {
+						n++
+						r.Logf("  populate o%d on s%d", id, i)
+					}
+				}
+				if n > 0 {
+					lin = append(lin, simkit.LinOp{Key: fmt.Sprintf("o%d", id), In: "put", Out: regOut{res: "ok"}, Call: call, Ret: w.k.Seq()})
+				}
+			}
+		})
+	}
 	var ops []*enOp
 	added := false
 	for i := 0; i < nops; i++ {
 		var op *enOp
-		switch r.Weighted(30, 8, 8, 6, 25, 8, 10, 3) {
+		switch r.Weighted(30, 8, 8, 6, 25, 8, 10, 3, 5) {
+		case 8:
+			// the policer's clean-up of redundant local copies (shard list taken when the task starts)
+			op = &enOp{kind: "dedup", id: r.Intn(nreg)}
 		case 0:
 			op = &enOp{kind: "put", id: r.Intn(nreg)}
 		case 1:
@@ -170,9 +200,10 @@ func runC20(r *simkit.R) {
 	byTask := map[*simkit.Task]*enOp{}
 	inFlight := map[*enOp]bool{}
 	unindexed := map[int]bool{} // object -> a put of it was acknowledged by a shard in degraded read-write mode
+	taintFrom := map[int]uint64{}
 	tainted := map[int]bool{}   // object -> a mutation of it FAILED after the simulator failed one of its shard calls / met a non-read-write shard
-	var lin []simkit.LinOp
 	next := 0
+	final := false // the closing phase: GC has settled, every object is read once more, nothing is failed
 	disturbed := false // a mode switch or an injected error happened
 	notRW := func() bool {
 		for i := range w.shards {
@@ -188,7 +219,7 @@ func runC20(r *simkit.R) {
 		}
 		return op.id
 	}
-	res := w.sched(enHooks{
+	hooks := enHooks{
 		maxConc: 1 + r.Intn(3),
 		next: func() (string, func(*simkit.Task)) {
 			if next >= len(ops) {
@@ -200,6 +231,16 @@ func runC20(r *simkit.R) {
 				return op.kind, func(*simkit.Task) {
 					op.err = w.addShard()
 					r.Op("addshard -> %v", errS(op.err))
+				}
+			}
+			if op.kind == "dedup" {
+				for _, h := range w.holders(op.id) {
+					op.seen = append(op.seen, w.shards[h].id.String())
+				}
+				if len(op.seen) < 2 {
+					op.kind, op.seen = "get", nil
+				} else {
+					r.Probe("redundant copies clean-up with >= 2 holder shards")
 				}
 			}
 			return op.kind, func(t *simkit.Task) {
@@ -219,7 +260,7 @@ func runC20(r *simkit.R) {
 			}
 		},
 		verdict: func(key string) int {
-			if faultPct == 0 || !r.Bool(faultPct) {
+			if final || faultPct == 0 || !r.Bool(faultPct) {
 				return vOK
 			}
 			v := vErr
@@ -236,6 +277,9 @@ func runC20(r *simkit.R) {
 				}
 				if strings.Contains(f[2], short(w.addr(op.id).Object())) || strings.Contains(f[2], short(w.addr(target(op)).Object())) {
 					op.faulted = true
+					if v == vAfterErr {
+						op.flag = true // a shard call of it took effect although it reported a failure
+					}
 				}
 			}
 			return v
@@ -270,7 +314,7 @@ func runC20(r *simkit.R) {
 			}
 			out := regOut{res: "err", excused: op.faulted}
 			switch op.kind {
-			case "put", "tomb", "mark", "drop":
+			case "put", "tomb", "mark", "drop", "dedup":
 				out.excused = false
 				if op.faulted {
 					out.bad = "a shard call of it had failed"
@@ -287,8 +331,9 @@ func runC20(r *simkit.R) {
 					for _, h := range w.holders(op.id) {
 						if w.modeOf(h) == mode.Degraded {
 							out.bad = "its blob sits on a shard that is in degraded read-write mode (stored without metadata)"
-						} else if w.modeOf(h).NoMetabase() && unindexed[op.id] {
-							// acknowledged because the blob written in degraded read-write mode is there
+						} else if w.modeOf(h).NoMetabase() {
+							// acknowledged because a blob is there (written in degraded read-write mode, or of
+							// an object whose removal mark the shard cannot see without its metabase)
 							out.bad = "its blob sits on a shard that is in degraded read-write mode (stored without metadata)"
 						}
 						if w.modeOf(h) == mode.Degraded {
@@ -339,28 +384,74 @@ func runC20(r *simkit.R) {
 				}
 			default:
 				// a mutation that FAILED after one of its shard calls was failed (or a shard was not
-				// read-write) may have taken effect on some shards only; from then on the shards
-				// disagree about the object and no single register describes it: not judged any more
-				if op.err != nil && !isRemoved(op.err) && (op.faulted || op.flag2) {
+				// read-write) may have taken effect on some shards only, and so did one whose shard
+				// call took effect although it reported a failure (the engine repeats it elsewhere);
+				// from then on the shards disagree about the object and no single register
+				// describes it: not judged any more
+				if op.err != nil && !isRemoved(op.err) && (op.faulted || op.flag2) || op.flag && op.kind != "mode" {
 					if !tainted[x] {
 						r.Probe("object not judged any more: a mutation of it failed half-way")
+						taintFrom[x] = t.Call
 					}
 					tainted[x] = true
 				}
 			}
 			if tainted[x] {
+				// (operations that returned before the offending mutation was invoked stay judged:
+				// the history is cut there at the end of the run)
 				w.r.Logf("    [%s key=o%d out=%+v (not judged)]", op.kind, x, out)
-				return
 			}
 			lin = append(lin, simkit.LinOp{Key: fmt.Sprintf("o%d", target(op)), In: op.kind, Out: out, Call: t.Call, Ret: t.Ret})
 			w.r.Logf("    [%s key=o%d out=%+v]", op.kind, target(op), out)
 		},
-	})
+	}
+	res := w.sched(hooks)
 	if res == "hang" || res == "steps" {
 		w.failHang(res)
 	}
 	if res != "" {
 		return
+	}
+	// closing phase: let GC passes run, then read every object once more (delayed effects of
+	// removal marks, e.g. of the redundant-copies clean-up, show only after a GC pass)
+	w.settle(25 * time.Second)
+	final = true
+	for id := 0; id < nreg; id++ {
+		ops = append(ops, &enOp{kind: "get", id: id})
+	}
+	hooks.maxConc = 1
+	res = w.sched(hooks)
+	if res == "hang" || res == "steps" {
+		w.failHang(res)
+	}
+	if res != "" {
+		return
+	}
+	if len(tainted) > 0 {
+		// cut each tainted object's history at the last quiescent moment before the offending
+		// mutation was invoked: an operation that overlaps a dropped one is dropped too (it may
+		// have seen, or be explained by, what the dropped one did)
+		cut := map[string]uint64{}
+		for x, from := range taintFrom {
+			key := fmt.Sprintf("o%d", x)
+			for changed := true; changed; {
+				changed = false
+				for _, o := range lin {
+					if o.Key == key && o.Ret >= from && o.Call < from {
+						from, changed = o.Call, true
+					}
+				}
+			}
+			cut[key] = from
+		}
+		kept := lin[:0:0]
+		for _, o := range lin {
+			if from, ok := cut[o.Key]; ok && o.Ret >= from {
+				continue
+			}
+			kept = append(kept, o)
+		}
+		lin = kept
 	}
 	bad, unknown := simkit.CheckLinearizable(lin, func(string) any { return stAbsent }, regStep, 20*time.Second)
 	if unknown {
@@ -445,6 +536,25 @@ func describeLin(lin []simkit.LinOp, key string) string {
 		if o.Key == key {
 			ops = append(ops, o)
 		}
+	}
+	// A read served while a shard was in a degraded (no-metabase) mode may have returned a removed
+	// object (findings F28/F32); taken at face value it makes the model believe the object is
+	// present and a LATER, correct answer gets the blame.  If the history without those reads is
+	// linearizable, the first of them is the offending observation.
+	var rest []simkit.LinOp
+	var first *simkit.LinOp
+	for i, o := range ops {
+		out := o.Out.(regOut)
+		if k := o.In.(string); (k == "get" || k == "head") && out.res == "ok" && out.bad != "" {
+			if first == nil {
+				first = &ops[i]
+			}
+			continue
+		}
+		rest = append(rest, o)
+	}
+	if first != nil && (len(rest) == 0 || linReach(rest, len(rest)-1) != 0) {
+		return fmt.Sprintf("%s returns ok while the object is absent|tombstoned [%s]", first.In, first.Out.(regOut).bad)
 	}
 	st := stAbsent
 	lastMut := ""
